@@ -21,13 +21,14 @@ USER = {1: "a", 2: "b", 3: "", 4: "s"}
 UIN = {1: [], 2: [1], 3: [2, 4], 4: []}
 
 
-def closure(objs):
+def closure(objs, uin=None):
+    uin = uin or UIN
     todo, seen = list(objs), set()
     while todo:
         o = todo.pop()
         if o not in seen:
             seen.add(o)
-            todo += UIN[o]
+            todo += uin[o]
     return seen
 
 
@@ -47,12 +48,23 @@ def classify(ex):
 
 
 class World:
-    def __init__(self):
+    def __init__(self, user_seed=False):
+        """user_seed: the seeded node s gets its seed from a value node `us` (object 5) the user wired in as keyword
+        input `seed` - the model then adds no seed node of its own for it, and the input is the user's to keep."""
         self.a = lsl.Value(jnp.float32(1.0), _name="a")
         self.b = lsl.Calc(lambda a: a + 1.0, self.a, _name="b")
-        self.s = lsl.Calc(lambda seed=None: jnp.float32(0.5), _needs_seed=True, _name="s")
+        self.uin = dict(UIN)
+        if user_seed:
+            import jax
+            self.us = lsl.Value(jax.random.PRNGKey(5), _name="us")
+            self.s = lsl.Calc(lambda seed=None: jnp.float32(0.5), seed=self.us, _needs_seed=True, _name="s")
+            self.uin.update({4: [5], 5: []})
+        else:
+            self.s = lsl.Calc(lambda seed=None: jnp.float32(0.5), _needs_seed=True, _name="s")
         self.c = lsl.Calc(lambda b, s: b + s, self.b, self.s)
         self.obj = {1: self.a, 2: self.b, 3: self.c, 4: self.s}
+        if user_seed:
+            self.obj[5] = self.us
         # a group over a (value node) and c (the calculator at the root)
         self.group = lsl.Group("g", first=self.a, root=self.c)
         self.gmembers = [1, 3]
@@ -66,7 +78,7 @@ class World:
         names = sorted(model.nodes)
         rec = {"names": names,
                "inputs": {str(o): sorted(n.name for n in nd.all_input_nodes()) for o, nd in nodes.items()},
-               "vals": {str(o): float(nd.value) for o, nd in nodes.items() if nd.value is not None},
+               "vals": {str(o): float(nd.value) for o, nd in nodes.items() if nd.value is not None and jnp.ndim(nd.value) == 0},
                "objs": sorted(nodes)}
         # structural facts read from the real model
         order = {nd.name: i for i, nd in enumerate(model._sorted_nodes)}
@@ -98,7 +110,7 @@ class World:
         return rec
 
     def user_names(self):
-        return [self.obj[o].name for o in (1, 2, 3, 4)]
+        return [self.obj[o].name for o in sorted(self.obj)]
 
     def all_projs(self):
         return {str(m): self.proj(m) for m in sorted(self.models)}
@@ -114,7 +126,7 @@ class World:
         try:
             model = self.gb.build_model(copy=copy)
             self.n += 1
-            cl = closure(self.added)
+            cl = closure(self.added, getattr(self, "uin", None))
             if copy:
                 nodes = {o: model.nodes[self.obj[o].name] for o in cl}
             else:
@@ -213,8 +225,9 @@ class World:
         return ev
 
 
-def random_trace(rng, nops=14):
-    w = World()
+def random_trace(rng, nops=14, user_seed=False):
+    w = World(user_seed)
+    objs = sorted(w.obj)
     ev = []
     popped = None
     for _ in range(nops):
@@ -226,12 +239,12 @@ def random_trace(rng, nops=14):
                     ev.append(w.add(o))
                 popped = None
             else:
-                ev.append(w.add(rng.choice([1, 2, 3, 4, 3, 3])))
+                ev.append(w.add(rng.choice(objs + [3, 3])))
         elif r < 0.45:
             if w.n < 3 and (w.gb.nodes or w.gb.vars):
                 ev.append(w.build(rng.random() < 0.25))
         elif r < 0.6:
-            ev.append(w.mutate(rng.choice([1, 2, 3, 4]), rng.choice(World.MUTATORS)))
+            ev.append(w.mutate(rng.choice(objs), rng.choice(World.MUTATORS)))
         elif r < 0.72 and live:
             m = rng.choice(live)
             # only models that hold the user's own objects can be popped back into the user's hands
@@ -248,7 +261,7 @@ def random_trace(rng, nops=14):
             m = rng.choice(live)
             if 1 in w.models[m][1]:
                 ev.append(w.assign(m, rng.choice([2.0, 3.0, 5.0])))
-    return {"hdr": {"universe": "abcs"}, "ev": ev}
+    return {"hdr": {"universe": "abcsu" if user_seed else "abcs"}, "ev": ev}
 
 
 def cyclic_trace(copy=False, seeded=False, hold=False):
